@@ -69,6 +69,15 @@ Definition short_name (env : enum_env) (n : Z) : option str :=
        end
   else None.
 
+(* an explicit zero option is spelled UNSPECIFIED or <prefix>UNSPECIFIED (the
+   reader derives the enum's prefix from the name of value 0; with another name
+   ending in UNSPECIFIED every reflected option name changes: known finding) *)
+Definition zero_std (env : enum_env) : bool :=
+  match ee_zero env with
+  | Some z => str_eqb (with_prefix env z) (ee_prefix env ++ unspecified)%list
+  | None => true
+  end.
+
 Fixpoint names_in (env : enum_env) (ns : list Z) : outcome (list str) :=
   match ns with
   | [] => Ok []
@@ -185,8 +194,8 @@ Definition read_field (env : enum_env) (k : pkind) (vt : option tyc) (lst : opti
   | KdInt64 => Ok (TInt I64 (read_int_rules I64 vt) (get_list LInt64 lst))
   | KdUint32 => Ok (TInt U32 (read_int_rules U32 vt) (get_list LUint32 lst))
   | KdUint64 => Ok (TInt U64 (read_int_rules U64 vt) (get_list LUint64 lst))
-  | KdFloat => Ok (TFloat false (get_list LFloat lst))
-  | KdDouble => Ok (TFloat true (get_list LDouble lst))
+  | KdFloat => Ok (TFloat false false (get_list LFloat lst))
+  | KdDouble => Ok (TFloat true false (get_list LDouble lst))
   | KdBytes =>
       Ok (TBytes (Some (match vt with Some (CBytes mn mx) => LR mn mx | _ => LR None None end)))
   | KdEnum =>
@@ -198,10 +207,16 @@ Definition read_field (env : enum_env) (k : pkind) (vt : option tyc) (lst : opti
              end)
         (fun r => Ok (TEnum r (get_list LEnum lst)))
   | KdTimestamp =>
-      match vt with
-      | Some CTimestamp => Err "timestamp rules outside the model"
-      | _ => Ok (TTimestamp (get_list LTimestamp lst))
-      end
+      (* wktSchema: lt / lte / gt / gte back into maximum / minimum + exclusive flags *)
+      Ok (TTimestamp (match vt with
+                      | Some (CTimestamp ub lb) =>
+                          Some (TSR (match lb with NoLb => None | Gt z | Gte z => Some z end)
+                                    (match ub with NoUb => None | Lt z | Lte z => Some z end)
+                                    (match lb with Gt _ => Some true | _ => None end)
+                                    (match ub with Lt _ => Some true | _ => None end))
+                      | _ => None
+                      end)
+                     (get_list LTimestamp lst))
   | KdDate =>
       Ok (TDate (match j5 with Some (XDate r) => r | _ => None end) (get_list LDate lst))
   | KdDecimal =>
@@ -211,8 +226,9 @@ Definition read_field (env : enum_env) (k : pkind) (vt : option tyc) (lst : opti
       | Some (XAny od ts) => Ok (TAny od ts (get_list LAny lst))
       | _ => Ok (TAny false [] (get_list LAny lst))
       end
-  | KdMsgObject => Ok (TObject (match j5 with Some (XObject fl) => fl | _ => false end))
-  | KdMsgOneof => Ok (TOneof (get_list LOneof lst))
+  (* buildMessageFieldSchema: (buf.validate.field) is not looked at for objects and oneofs *)
+  | KdMsgObject => Ok (TObject (match j5 with Some (XObject fl) => fl | _ => false end) None)
+  | KdMsgOneof => Ok (TOneof false (get_list LOneof lst))
   | KdMapEntry _ | KdOther => Err "field kind outside the model"
   end.
 
@@ -243,6 +259,10 @@ Definition clean_desc (d : str) : str :=
                 (map trim (split_lines d [])))
   end.
 
+(* an item / value constraint without a type is "no type constraint" (ext.validate.Type == nil) *)
+Definition strip_empty (vt : option tyc) : option tyc :=
+  match vt with Some CEmpty => None | v => v end.
+
 (* ---- messageProperties: one property ---------------------------------------- *)
 Record rprop := RP { rp_prop : prop; rp_path : list N }.
 
@@ -261,7 +281,7 @@ Definition read_prop (env : enum_env) (o : fout) : outcome rprop :=
           | Some (CMap mn mx v) => (Some (MR mn mx), v)
           | _ => (None, None)
           end in
-      obind (read_field env vk values None None (fo_key o)) (fun t => Ok (mk req false (PMap rules t)))
+      obind (read_field env vk (strip_empty values) None None (fo_key o)) (fun t => Ok (mk req false (PMap rules t)))
   | k =>
       if fo_rep o
       then
@@ -272,7 +292,7 @@ Definition read_prop (env : enum_env) (o : fout) : outcome rprop :=
             | Some (CRep mn mx uq it) => (Some (AR mn mx uq), it)
             | _ => (None, None)
             end in
-        obind (read_field env k items (fo_list o) None (fo_key o))
+        obind (read_field env k (strip_empty items) (fo_list o) None (fo_key o))
           (fun t => Ok (mk req false
                           (PArray rules (match fo_ext o with Some (XArray sf) => sf | _ => None end) t)))
       else
@@ -298,6 +318,11 @@ Definition norm_int (r : int_rules) : int_rules :=
      (if is_some (ir_min r) && is_true (ir_xmin r) then Some true else None)
      (if is_some (ir_max r) && is_true (ir_xmax r) then Some true else None).
 
+Definition norm_ts (r : ts_rules) : ts_rules :=
+  TSR (tsr_min r) (tsr_max r)
+      (if is_some (tsr_min r) && is_true (tsr_xmin r) then Some true else None)
+      (if is_some (tsr_max r) && is_true (tsr_xmax r) then Some true else None).
+
 Definition short (env : enum_env) (name : str) : str :=
   trim_prefix (ee_prefix env) (with_prefix env name).
 
@@ -315,6 +340,10 @@ Definition norm_fty (env : enum_env) (t : fty) : fty :=
                    | None => ER [] []
                    end)) l
   | TKey f e l => TKey f (match e with Some e => Some (norm_entity e) | None => None end) l
+  | TTimestamp r l => TTimestamp (match r with Some r => Some (norm_ts r) | None => None end) l
+  (* rules messages without content: present = absent *)
+  | TObject fl (Some (OBR None None)) => TObject fl None
+  | TOneof _ l => TOneof false l
   | t => t
   end.
 
@@ -325,6 +354,7 @@ Definition items_constrained (t : fty) : bool :=
   | TInt _ (Some _) _ | TStr _ (Some _) _ | TBytes (Some _) | TBool (Some _) _ => true
   | TEnum _ _ => true
   | TKey (Some _) _ _ => true
+  | TTimestamp (Some _) _ | TObject _ (Some _) | TOneof true _ => true
   | _ => false
   end.
 
@@ -369,8 +399,8 @@ Inductive mode := MSingle | MArray | MMap.
 Definition no_list (t : fty) : bool :=
   match t with
   | TInt _ _ None | TStr _ _ None | TBytes _ | TBool _ None | TEnum _ None | TKey _ _ None
-  | TFloat _ None | TDate _ None | TDecimal _ None | TTimestamp None | TAny _ _ None
-  | TObject _ | TOneof None => true
+  | TFloat _ _ None | TDate _ None | TDecimal _ None | TTimestamp _ None | TAny _ _ None
+  | TObject _ _ | TOneof _ None => true
   | _ => false
   end.
 
@@ -378,6 +408,10 @@ Definition rt_fty (m : mode) (t : fty) : bool :=
   (* list rules of map values are not read back *)
   (match m with MMap => no_list t | _ => true end) &&
   match m, t with
+  | _, TTimestamp (Some r) _ => negb (is_some (tsr_min r)) && negb (is_some (tsr_max r))   (* bounds are not written *)
+  | _, TObject _ (Some r) =>                 (* minProperties / maxProperties are not written *)
+      negb (is_some (obr_min r)) && negb (is_some (obr_max r))
+      && match m, t with MSingle, _ => true | _, TObject true _ => false | _, _ => true end
   | _, TStr (Some _) _ _ => false            (* StringField.format is not written *)
   | _, TStr None (Some r) _ => pat_plain (sr_pat r)
   | _, TKey None e l =>
@@ -393,7 +427,7 @@ Definition rt_fty (m : mode) (t : fty) : bool :=
   | MSingle, _ => true
   (* inside an array or a map there is no (j5.ext.v1.field) of the item *)
   | _, TDate (Some _) _ | _, TDecimal (Some _) _ => false
-  | _, TObject true => false
+  | _, TObject true _ => false
   | _, TAny od ts _ => negb od && match ts with [] => true | _ => false end
   | _, _ => true
   end.
@@ -408,7 +442,30 @@ Definition rt_ok (d : prop) : bool :=
   end.
 
 
-(* what the reader looks at: everything but the field's presence *)
+(* what the reader looks at: everything but the field's presence and its proto name *)
 Definition c04_proj (o : fout) : fout :=
-  FO (fo_json o) (fo_number o) (fo_kind o) (fo_rep o) (fo_opt o) false (fo_val o)
+  FO (fo_json o) [] (fo_number o) (fo_kind o) (fo_rep o) (fo_opt o) false (fo_val o)
      (fo_ext o) (fo_list o) (fo_key o) (fo_desc o).
+
+(* ---- root schemas: an object or a oneof with its name, description and properties ---- *)
+(* visitObjectNode / visitOneofNode: the message carries (j5.ext.v1.message).object / .oneof
+   and the description as its leading comment; buildObjectSchema / buildOneofSchema +
+   isOneofWrapper read the kind from that option, the description through commentDescription *)
+Inductive rkind := RObject | ROneof.
+Record root_decl := RD { rd_kind : rkind; rd_name : str; rd_desc : str; rd_props : list prop }.
+Record root_out := RO { ro_name : str; ro_comment : str; ro_msgopt : option rkind; ro_fields : list fout }.
+Record rroot := RR { rr_kind : rkind; rr_name : str; rr_desc : str; rr_props : list rprop }.
+
+Definition write_root (env : enum_env) (d : root_decl) : outcome root_out :=
+  obind (write_object env (rd_props d))
+        (fun os => Ok (RO (rd_name d) (rd_desc d) (Some (rd_kind d)) os)).
+
+Definition read_root (env : enum_env) (o : root_out) : outcome rroot :=
+  match ro_msgopt o with
+  | Some k => obind (read_object env (ro_fields o))
+                    (fun ps => Ok (RR k (ro_name o) (clean_desc (ro_comment o)) ps))
+  | None => Err "message without (j5.ext.v1.message).object / .oneof: outside the model"
+  end.
+
+(* the fragment at root level: the description survives commentDescription, the properties lie in rt_ok *)
+Definition rt_root (d : root_decl) : bool := desc_plain (rd_desc d) && forallb rt_ok (rd_props d).
